@@ -198,6 +198,9 @@ def parseTableOps (s : String) : Option (List PV.Table.Op) :=
     | ["i", k, v] => match k.toNat?, v.toNat? with
       | some k, some v => some (PV.Table.Op.insert k v)
       | _, _ => none
+    | ["n", k, v] => match k.toNat?, v.toNat? with        -- Insert() of an absent key = insert-if-absent of an absent key
+      | some k, some v => some (PV.Table.Op.insert k v)
+      | _, _ => none
     | ["f", k] => k.toNat?.map PV.Table.Op.find
     | _ => none)
 
